@@ -509,7 +509,9 @@ def gallina_of_model(model, k, dt):
             r = (("fint",), f"(o_onehot {zlit(depth[0])} {zlit(vals[0])} {zlit(vals[1])} {ex[0]} j)")
         elif op == "Identity":
             only()
-            r = ins[0]
+            if kinds[0][0] != "int":
+                raise Unrecognised(f"Identity on {kinds}")
+            r = (kinds[0], f"(o_identity {ex[0]})")
         elif op == "Unsqueeze":
             only()
             if kinds[0][0] != "int" or kinds[0][1] != "int64" or vec(n.input[1]) != [0]:
@@ -536,6 +538,108 @@ def gallina_of_model(model, k, dt):
     kind, expr = get(g.output[0].name)
     ocode = CODE_NAME.get(g.output[0].type.tensor_type.elem_type)
     return "fun " + " ".join(params + extra_binders) + " => " + expr, kind, ocode
+
+
+# ------------------------------------------------------------------------------------------------ deep embedding of the export
+_SB1 = {"o_neg": "ONeg", "o_abs": "OAbs", "o_sign": "OSign", "o_bitnot": "OBitNot", "o_cast": "OCast", "o_cast_of_bool": "OCastOfBool"}
+_SB2 = {"o_add": "OAdd", "o_sub": "OSub", "o_mul": "OMul", "o_div": "ODiv", "o_pow": "OPow", "o_bitand": "OBitAnd",
+        "o_bitor": "OBitOr", "o_bitxor": "OBitXor", "o_shl": "OShl", "o_shr": "OShr"}
+_P1 = {"o_not": "ONot", "o_cast_to_bool": "OCastToBool", "o_cast_float": "OCastFloat", "o_round": "ORound", "o_floor": "OFloor",
+       "o_ceil": "OCeil", "q_abs": "OAbsF", "q_sign": "OSignF", "o_identity": "OIdentity"}
+_P2 = {"o_max": "OMax", "o_min": "OMin", "o_and": "OAnd", "o_or": "OOr", "o_xor": "OXor", "o_equal": "OEqual", "o_less": "OLess",
+       "o_le": "OLessEq", "o_greater": "OGreater", "o_ge": "OGreaterEq", "o_equal_b": "OEqualB", "q_sub_z": "OSubF",
+       "q_eqb": "OEqualF", "z_add": "OAddF", "z_mul": "OMulF"}
+_P3 = {"o_where": "OWhere", "o_where_b": "OWhereB"}
+
+
+def _sexp(text):
+    toks = re.findall(r"\(|\)|[^\s()]+", text)
+    pos = 0
+
+    def rd():
+        nonlocal pos
+        t = toks[pos]
+        pos += 1
+        if t == "(":
+            out = []
+            while toks[pos] != ")":
+                out.append(rd())
+            pos += 1
+            return out
+        return t
+    tree = rd()
+    if pos != len(toks):
+        raise Unrecognised("trailing tokens in term")
+    return tree
+
+
+def _flat(t):
+    return t if isinstance(t, str) else "(" + " ".join(_flat(x) for x in t) + ")"
+
+
+def deep_of_term(term):
+    """kexpr (Lift.kx) text of a shallow term `fun (x0 : T) ... => body` over the elementwise OnnxInt operators;
+    None when the body uses a non-elementwise operator (OneHot, Slice)"""
+    body = term.split("=>", 1)[1].strip()
+
+    def conv(t):
+        if isinstance(t, str):
+            if re.fullmatch(r"x\d+", t):
+                return f"(KVar {int(t[1:])})"
+            if t in ("true", "false"):
+                return f"(KConst (VB {t}))"
+            raise Unrecognised(f"atom {t}")
+        if len(t) == 1 and isinstance(t[0], str) and re.fullmatch(r"-?\d+", t[0]):
+            return f"(KConst (VZ ({t[0]})))"
+        if len(t) == 2 and isinstance(t[0], str) and t[0].endswith(","):
+            return f"(KConst (VQ {_flat(t)}))"
+        if len(t) == 3 and t[1] == ",":
+            return f"(KConst (VQ ({_flat(t[0])}, {_flat(t[2])})))"
+        if not isinstance(t[0], str):
+            raise Unrecognised("application of a non-atom")
+        h = t[0]
+        if h in _SB1 and len(t) == 3:
+            return f"(KOp1 ({_SB1[h]} {_flat(t[1])}) {conv(t[2])})"
+        if h in _SB2 and len(t) == 4:
+            return f"(KOp2 ({_SB2[h]} {_flat(t[1])}) {conv(t[2])} {conv(t[3])})"
+        if h in _P1 and len(t) == 2:
+            return f"(KOp1 {_P1[h]} {conv(t[1])})"
+        if h in _P2 and len(t) == 3:
+            return f"(KOp2 {_P2[h]} {conv(t[1])} {conv(t[2])})"
+        if h in _P3 and len(t) == 4:
+            return f"(KOp3 {_P3[h]} {conv(t[1])} {conv(t[2])} {conv(t[3])})"
+        raise KeyError(h)
+    try:
+        return conv(_sexp(body))
+    except (KeyError, Unrecognised, IndexError, TypeError):
+        return None
+
+
+def deep_name(k, dt):
+    """the kexpr of Lift.v the export of this variant must be (None: not an elementwise kernel)"""
+    n = k.name
+    sb = sb_lit(dt) if dt in INT_DTYPES else None
+    isb = dt == "bool"
+    if n in ("add", "sub", "mul", "neg", "abs", "sign", "div", "rem", "floor_divide", "mod", "fmod", "bitand", "bitor", "bitxor",
+             "bitnot", "shift_left", "shift_right_logical", "shift_right_arithmetic"):
+        return f"ke_{n} {sb}"
+    if n in ("max", "min", "relu", "relu6", "lt", "le", "gt", "ge", "floor", "ceil", "round_away", "select_n_int", "convert_to_bool"):
+        return f"ke_{n}"
+    if n in ("clamp", "clip"):
+        return "ke_clamp"
+    if n in ("select_n", "where", "eq", "ne"):
+        return f"ke_{n}" + ("_b" if isb else "")
+    if n.startswith("bool_"):
+        return f"ke_{n}"
+    if n in ("round_even", "jnp_round"):
+        return "ke_round"
+    if n.startswith("integer_pow"):
+        return f"ke_integer_pow {sb} {k.extra['y']}%nat"
+    if n.startswith("convert_bool_"):
+        return f"ke_convert_of_bool {sb_lit(k.extra['to'])}"
+    if n.startswith("convert_"):
+        return f"ke_convert_int {sb_lit(k.extra['to'])}"
+    return None
 
 
 # ------------------------------------------------------------------------------------------------ Coq names
@@ -619,7 +723,7 @@ def result_lit(v, kind):
     return zlit(int(v))
 
 
-COQ_HDR = common.CASES_HEADER + "From J2O Require Import OnnxInt Kernels.\n"
+COQ_HDR = common.CASES_HEADER + "From J2O Require Import Tensor Batch OnnxInt Kernels Lift.\n"
 
 
 def eq_term(kind, a, b):
@@ -1151,8 +1255,8 @@ def run(ctx):
         for flag in (False, True):
             _set_x64(flag)
             todo = [v for v in variants if v.needs64() == flag]
-            with ThreadPoolExecutor(max_workers=8) as ex:
-                list(ex.map(ref, todo))
+            for v_ in todo:       # sequential: concurrent eager dispatch from threads crashed the interpreter once
+                ref(v_)
         T["jax_references"] = round(_time.time() - t_, 1)
         t_ = _time.time()
         # ---- phase 2: real exports of the single-primitive programs
@@ -1196,6 +1300,13 @@ def run(ctx):
                 nav = "" if len(alts) == 1 else ("left; " * 1 if n_ == 0 else "right; ")
                 tacs.append(f"{nav}timeout 20 reflexivity; idtac \"TIE_S_OK\"")
             v.s_job = jobs.add(f"Goal {goal}.\nProof. first [ " + " | ".join(tacs) + " | idtac \"TIE_S_BAD\" ]. Abort.\n")
+            # the same export as a DEEP term: must be the operator graph ke_<k> of Lift.v the lifting theorems are about
+            v.sd_job, v.deep, dn = None, None, deep_name(v.k, v.dt)
+            if dn is not None:
+                v.deep = deep_of_term(v.term)
+                if v.deep is not None:
+                    v.sd_job = jobs.add(f"Goal (({v.deep}) : kx) = ({dn}).\nProof. first [ timeout 20 reflexivity; idtac \"TIE_S_OK\" "
+                                        f"| idtac \"TIE_S_BAD\" ]. Abort.\n")
         except Unrecognised as e:
             v.term_err = str(e)
 
@@ -1289,6 +1400,19 @@ def run(ctx):
             n_s += 1
     ctx.oblige(f"tieS:exported-structure-convertible-to-lowered_k({n_s}/{len(live)} kernel x dtype variants)",
                n_s == len(live), "tie", "" if n_s == len(live) else "see the tieS:<kernel>:<dtype> obligations")
+    n_sd = n_sd_all = 0
+    for v in live:
+        if v.term is None or deep_name(v.k, v.dt) is None:
+            continue
+        n_sd_all += 1
+        if v.sd_job is not None and results[v.sd_job] is True:
+            n_sd += 1
+        else:
+            ctx.oblige(f"tieS-graph:{v.id}", False, "tie",
+                       f"kernel structure not recognised: {v.k.name}: the exported graph {structure(v.model)} as operator graph "
+                       f"{v.deep} is not the kexpr {deep_name(v.k, v.dt)} of Lift.v")
+    ctx.oblige(f"tieS:exported-graph-is-the-kexpr-of-the-lifting-theorems({n_sd}/{n_sd_all} elementwise variants)",
+               n_sd == n_sd_all, "tie", "" if n_sd == n_sd_all else "see the tieS-graph:<kernel>:<dtype> obligations")
 
     # ---- the property on the real code (judge)
     no_kernel, deviant, searched, points, nontrivial = [], [], 0, 0, 0
